@@ -42,30 +42,25 @@ var ObligatoryPrintDirectiveNames = []string{}
 
 func directiveInsertWordBreaks(value data.Value, args []data.Value) data.Value {
 	var (
-		input    = template.HTMLEscapeString(value.String())
+		input    = value.String()
 		maxChars = int(args[0].(data.Int))
 		chars    = 0
-		output   *bytes.Buffer // create the buffer lazily
+		output   bytes.Buffer
 	)
-	for i, ch := range input {
+	// Count the characters of the value (not of its escaped form) and escape
+	// each one as it is written, so that the result is always escaped and a
+	// <wbr> never lands inside a character reference.
+	for _, ch := range input {
 		switch {
 		case ch == ' ':
 			chars = 0
 		case chars >= maxChars:
-			if output == nil {
-				output = bytes.NewBufferString(input[:i])
-			}
 			output.WriteString("<wbr>")
 			chars = 1
 		default:
 			chars++
 		}
-		if output != nil {
-			output.WriteRune(ch)
-		}
-	}
-	if output == nil {
-		return value
+		template.HTMLEscape(&output, []byte(string(ch)))
 	}
 	return data.String(output.String())
 }
